@@ -396,7 +396,7 @@ func C07() *engine.Check {
 	return &engine.Check{
 		Property: "C07",
 		Level:    "model_checking",
-		Subs:     []*engine.Sub{c07Sub(algs, d), c07SizeSub(), c07SharedSub()},
+		Subs:     []*engine.Sub{c07Sub(algs, d), c07SizeSub(), c07SharedSub(), c07AgainSub()},
 		Assumptions: []string{
 			"fixture keys (one per algorithm, committed) stand for 'every generatable key'; C16 covers key-to-DID conversion over more keys",
 			"non-finite floats are outside the property's premise and not in the alphabet",
